@@ -1,0 +1,18 @@
+//go:build verif
+
+// Contracts for the deductive checker in /verif (govc). Comment-only; ignored without the
+// "verif" build tag.
+
+package transient
+
+//@ ghost mdb.size (Array Int Int)
+
+// C12: a transient store is empty after every commit: its database is a newly created, empty MemDB,
+// and the commit id it reports is the zero id (so it never enters the commit info).
+//@ func (ts *Store) Commit() (id types.CommitID)
+//@   props C12
+//@   modifies mdb.size, ts.Store
+//@   ensures [empty] mdb.size[ref(unbox(ts.Store.DB, "*github.com/tendermint/tm-db.MemDB"))] == 0
+//@   ensures [fresh] fresh(unbox(ts.Store.DB, "*github.com/tendermint/tm-db.MemDB"))
+//@   ensures [zeroid] id.Version == 0 && len(id.Hash) == 0
+//@   ensures [others] forall r int :: r != ref(unbox(ts.Store.DB, "*github.com/tendermint/tm-db.MemDB")) ==> mdb.size[r] == old(mdb.size[r])
